@@ -22,11 +22,13 @@ class Case:
         def nodes(ns):
             o = [len(ns)]
             for n in ns:
-                o += [int(n["pp"][0])] + list(n["pp"][1:]) + [int(n["cp"][0])] + list(n["cp"][1:]) + [n["pr"], n["cr"]]
+                st = n.get("st", NOPOS)
+                o += [int(n["pp"][0])] + list(n["pp"][1:]) + [int(n["cp"][0])] + list(n["cp"][1:]) + [n["pr"], n["cr"]] + [int(st[0])] + list(st[1:])
             return o
         out.append(len(self.conflicts))
         for c in self.conflicts:
-            out += [c["id"]] + list(c["pos"]) + nodes(c["nil"]) + nodes(c["nonnil"])
+            src = c.get("src", NOPOS)
+            out += [c["id"]] + list(c["pos"]) + nodes(c["nil"]) + nodes(c["nonnil"]) + [int(src[0])] + list(src[1:])
         return " ".join(map(str, out))
 
     def with_(self, **kw):
@@ -41,9 +43,9 @@ class Case:
         for r in self.ranges:
             ls.append("  nolint range f%d lines %d..%d" % tuple(r))
         for c in self.conflicts:
-            ls.append("  conflict #%d at f%d:%d:%d (offset %d)" % ((c["id"],) + tuple(c["pos"])))
+            ls.append("  conflict #%d at f%d:%d:%d (offset %d)%s" % ((c["id"],) + tuple(c["pos"]) + ((" source object at %s" % ps(c["src"])) if c.get("src", NOPOS)[0] else "",)))
             for n in c["nil"]:
-                ls.append("      nil-path node producer=%s consumer=%s reprs=(p%d,c%d)" % (ps(n["pp"]), ps(n["cp"]), n["pr"], n["cr"]))
+                ls.append("      nil-path node producer=%s consumer=%s reprs=(p%d,c%d) site=%s" % (ps(n["pp"]), ps(n["cp"]), n["pr"], n["cr"], ps(n.get("st", NOPOS))))
             for n in c["nonnil"]:
                 ls.append("      nonnil-path node producer=%s consumer=%s reprs=(p%d,c%d)" % (ps(n["pp"]), ps(n["cp"]), n["pr"], n["cr"]))
         return "\n".join(ls) + "\ncase-line: " + self.line() + "\n"
@@ -53,25 +55,35 @@ NOPOS = (False, 0, 0, 0)
 
 
 def gen_case(rng, max_conf=9):
-    nfiles = rng.randint(1, 3)
+    nfiles = rng.randint(1, 4)
     test_files = [f for f in range(1, nfiles + 1) if rng.random() < 0.2]
     # shared nil sources
     sources = []
+    short = lambda f: 2 if f >= 3 else f     # v/util.go, w/v/util.go, x/w/v/util.go all print as v/util.go
+    twin = None
     for i in range(rng.randint(1, 3)):
         kind = rng.random()
         f = rng.randint(1, nfiles)
+        if twin is not None and rng.random() < 0.5:
+            # a look-alike of an earlier source: the same printed path in another file with the same <dir>/<file> name
+            path = [(dict(n, st=(True, 5 - n["st"][1], n["st"][2], n["st"][3])) if n.get("st", NOPOS)[0] and n["st"][1] in (2, 3) else dict(n)) for n in twin]
+            sources.append(path)
+            continue
+        sf = short(f)
         if kind < 0.4:      # a nil literal flowing through an assignment: producer+consumer positions
             l = rng.randint(1, 40)
-            path = [dict(pp=(True, f, l, 2), cp=(True, f, l, 5), pr=10 + i, cr=20 + i)]
+            path = [dict(pp=(True, sf, l, 2), cp=(True, sf, l, 5), pr=10 + i, cr=20 + i, st=(True, f, l, 2))]
         elif kind < 0.8:    # annotation node: no consumer; producer position may or may not be known
             l = rng.randint(1, 40)
-            pp = (True, f, l, 1) if rng.random() < 0.7 else NOPOS
-            path = [dict(pp=pp, cp=NOPOS, pr=30, cr=0)]
+            pp = (True, sf, l, 1) if rng.random() < 0.7 else NOPOS
+            path = [dict(pp=pp, cp=NOPOS, pr=30, cr=0, st=(True, f, l, 1) if rng.random() < 0.8 else NOPOS)]
         else:
             l = rng.randint(1, 40)
-            path = [dict(pp=(True, f, l, 2), cp=(True, f, l, 5), pr=10 + i, cr=20 + i),
-                    dict(pp=NOPOS, cp=(True, f, l + 1, 3), pr=40, cr=41)]
+            path = [dict(pp=(True, sf, l, 2), cp=(True, sf, l, 5), pr=10 + i, cr=20 + i, st=(True, f, l, 2)),
+                    dict(pp=NOPOS, cp=(True, sf, l + 1, 3), pr=40, cr=41, st=(True, f, l + 1, 3))]
         sources.append(path)
+        if f in (2, 3) and nfiles >= 3:
+            twin = path
     conflicts = []
     used = set()
     n = rng.randint(1, max_conf)
@@ -95,7 +107,9 @@ def gen_case(rng, max_conf=9):
             # producers from a small pool: same line with different columns, same column on different lines
             pp = (True, f, rng.choice([3, 3, 4, 17]), rng.choice([1, 1, 6, 9])) if rng.random() < 0.6 else NOPOS
             nonnil = [dict(pp=pp, cp=(True, f, l, c), pr=rng.choice([70, 71]), cr=rng.choice([80, 81]))]
-        conflicts.append(dict(id=i, pos=(f, l, c, off), nil=nil, nonnil=nonnil))
+        # the object a single-assertion conflict reads nil from: a small pool of declaration positions (same-named locals)
+        src = (True, f, rng.choice([2, 2, 8]), rng.choice([1, 4])) if (not nil and rng.random() < 0.7) else NOPOS
+        conflicts.append(dict(id=i, pos=(f, l, c, off), nil=nil, nonnil=nonnil, src=src))
     # a few conflicts share the exact sort key (file, offset) with another one
     if len(conflicts) >= 2 and rng.random() < 0.3:
         a, b = rng.sample(range(len(conflicts)), 2)
@@ -161,8 +175,8 @@ def nil_source(c):
     """the nil source of a conflict, as a comparable value"""
     if not c["nil"] and len(c["nonnil"]) == 1:
         n = c["nonnil"][0]
-        return ("single", n["pp"], n["pr"]) if n["pp"][0] else ("single-nopos", n["pr"], n["cr"])
-    return ("path", tuple((n["cp"], n["pr"], n["cr"], n["pp"] if not n["cp"][0] else None) for n in c["nil"]))
+        return ("single", n["pp"], n["pr"]) if n["pp"][0] else ("single-nopos", n["pr"], n["cr"], c.get("src", NOPOS) if c.get("src", NOPOS)[0] else None)
+    return ("path", tuple((n["cp"], n["pr"], n["cr"], n["pp"] if not n["cp"][0] else None, n.get("st", NOPOS) if n.get("st", NOPOS)[0] else None) for n in c["nil"]))
 
 
 def oracle_locations(case, diags):
